@@ -10,8 +10,10 @@ import (
 // LS is the lock automaton state: the canonical identity of the held bucket lock ("" = none)
 // and whether the resize mutex is held.
 type LS struct {
-	B  string
-	Mu bool
+	B   string
+	Mu  bool
+	DB  string // bucket lock whose release is deferred to the function's return
+	DMu bool   // resize mutex release deferred
 }
 
 // LockFacts is the result of running the lock automaton over one function specialisation.
@@ -39,8 +41,33 @@ func lockFacts(r *Run, f *ssa.Function, sp core.Spec) *LockFacts {
 		}
 		set[s] = true
 		if _, ok := in.(*ssa.Defer); ok {
-			if r.M.LockEventOfCall(in.(ssa.CallInstruction)) != nil {
-				ctx.Report(in, "undecided", "deferred lock operation is not modelled")
+			if dev := r.M.LockEventOfCall(in.(ssa.CallInstruction)); dev != nil {
+				switch {
+				case dev.Acquire:
+					ctx.Report(in, "undecided", "deferred lock acquisition is not modelled")
+				case dev.Class == "bucket":
+					s.DB = dev.Canon
+				default:
+					s.DMu = true
+				}
+			}
+			return []LS{s}
+		}
+		if _, ok := in.(*ssa.RunDefers); ok {
+			// deferred releases take effect here, just before the return
+			if s.DB != "" {
+				if s.B != s.DB {
+					ctx.Report(in, "release-unheld", "deferred release of %s runs while %q is held", s.DB, s.B)
+					return nil
+				}
+				s.B, s.DB = "", ""
+			}
+			if s.DMu {
+				if !s.Mu {
+					ctx.Report(in, "release-unheld", "deferred release of the resize mutex runs while it is not held")
+					return nil
+				}
+				s.Mu, s.DMu = false, false
 			}
 			return []LS{s}
 		}
